@@ -59,62 +59,117 @@ Proof. intros H1 H2. rewrite !N.mod_small by lia. lia. Qed.
 (* ------------------------------------------------------------------------------------------ *)
 (* re-keying keeps the counter *)
 
-(* Session::update inside new_session: the stored session takes the new keys, remembers the previous
-   ones and keeps its counter *)
+(* Session::update inside new_session (which first purges the expired entries at the front of the
+   cache): the stored session - if it has not expired - takes the new keys, remembers the previous ones
+   and keeps its counter *)
 Lemma rekey_keeps_counter c s na se skip now h1 cs :
-  sess_get (hs s) na = (h1, Some cs) ->
+  sess_get c (hs (remove_expired_sessions c s)) na = (h1, Some cs) ->
   exists s1,
     hs s1 = sess_put h1 na {| s_enc := s_enc se; s_dec := s_dec se; s_old := Some (s_enc cs, s_dec cs);
-                              s_await := s_await se; s_counter := s_counter cs |} /\
+                              s_await := s_await se; s_counter := s_counter cs; s_used := s_used cs |} /\
     Quiet s1 (new_session c s na se skip now).
 Proof.
   intros Hg. unfold new_session. rewrite Hg.
-  exists (with_hs s (sess_put h1 na {| s_enc := s_enc se; s_dec := s_dec se; s_old := Some (s_enc cs, s_dec cs);
-                                        s_await := s_await se; s_counter := s_counter cs |})).
+  exists (with_hs (remove_expired_sessions c s)
+            (sess_put h1 na {| s_enc := s_enc se; s_dec := s_dec se; s_old := Some (s_enc cs, s_dec cs);
+                               s_await := s_await se; s_counter := s_counter cs; s_used := s_used cs |})).
   split; [reflexivity |].
   destruct (fix_d2a c).
   - eapply Quiet_trans; [apply Quiet_replay | apply Quiet_send_pending_requests].
   - apply Quiet_replay.
 Qed.
 
-Lemma alist_In_uniq {A} (k : naddr) (v : A) l : NoDup (map fst l) -> In (k, v) l -> alist_get k l = Some v.
-Proof.
-  induction l as [| [k' v'] r IH]; cbn [alist_get map fst]; [intros _ [] |].
-  intros H [Hin | Hin].
-  - inversion Hin; subst. rewrite naddr_eqb_refl. reflexivity.
-  - inversion H as [| x y H1 H2]; subst. destruct (naddr_eqb k k') eqn:E.
-    + apply naddr_eqb_eq in E. subst. exfalso. apply H1. apply in_map_iff. exists (k', v). auto.
-    + apply IH; assumption.
-Qed.
-
-(* ... so after new_session the session under [na] has a counter at least as large as before *)
+(* ... so after new_session the session under [na] has a counter at least as large as before, provided
+   the stored session has not expired (an expired one is purged and replaced by a new session object
+   with the new keys, whose counter starts at 0: see new_session_expired_restarts) *)
 Corollary new_session_counter c s na se skip now cs se' :
   SessUniq (hs s) ->
   alist_get na (sessions (hs s)) = Some cs ->
+  sess_expired c cs = false ->
   In (na, se') (sessions (hs (new_session c s na se skip now))) ->
   s_counter cs <= s_counter se'.
 Proof.
-  intros HU Hg Hin. destruct (NS_new_session c s na se skip now) as [_ [HN _]].
-  destruct (HN _ _ Hin) as [[se0 [H1 [H2 _]]] | [_ [H1 _]]].
-  - rewrite (alist_In_uniq _ _ _ HU H1) in Hg. inversion Hg; subst. exact H2.
-  - exfalso. apply alist_get_In in Hg. exact (H1 _ Hg).
+  intros HU Hg Hx Hin.
+  pose proof (remove_expired_sessions_keeps c s na cs Hg Hx) as Hg0.
+  pose proof (QH_remove_expired_sessions c s) as [_ [_ U0]]. specialize (U0 HU).
+  pose proof (sess_get_some c _ na cs Hg0 Hx) as Hsg.
+  destruct (rekey_keeps_counter c s na se skip now _ _ Hsg) as [s1 [E1 [[_ [D1 _]] _]]].
+  destruct (D1 _ _ Hin) as [x [Hx1 [_ Hx2]]]. rewrite E1 in Hx1.
+  cbn [sess_put sessions set_sessions] in Hx1.
+  apply alist_set_uniq in Hx1.
+  - subst x. cbn [s_counter touch] in Hx2. exact Hx2.
+  - apply to_back_NoDup. exact U0.
+Qed.
+
+(* the other case: the stored session has expired - it is purged, and the session under [na] afterwards
+   is a new object descending from [se] (new keys only; the counter restarts) *)
+Lemma new_session_expired_restarts c s na se skip now cs se' :
+  SessUniq (hs s) ->
+  alist_get na (sessions (hs s)) = Some cs ->
+  sess_expired c cs = true ->
+  In (na, se') (sessions (hs (new_session c s na se skip now))) ->
+  sess_desc se se'.
+Proof.
+  intros HU Hg Hx Hin. unfold new_session in Hin.
+  pose proof (QH_remove_expired_sessions c s) as [_ [D0 U0]]. specialize (U0 HU).
+  set (s0 := remove_expired_sessions c s) in *.
+  assert (Hnone : snd (sess_get c (hs s0) na) = None).
+  { rewrite sess_get_snd. destruct (alist_get na (sessions (hs s0))) as [x |] eqn:E; [| reflexivity].
+    apply alist_get_In in E.
+    (* the purge keeps entries as they are *)
+    assert (x = cs).
+    { unfold s0 in E. destruct (remove_expired_sessions_hs c s) as [H | H]; rewrite H in E.
+      - rewrite (alist_In_uniq _ _ _ HU E) in Hg. congruence.
+      - cbn [sessions set_sessions] in E. apply drop_expired_incl in E.
+        rewrite (alist_In_uniq _ _ _ HU E) in Hg. congruence. }
+    subst x. rewrite Hx. reflexivity. }
+  pose proof (sess_get_gone c (hs s0) na U0 Hnone) as Hgone.
+  pose proof (QH_sess_get c (hs s0) na) as [_ [_ U1]]. specialize (U1 U0).
+  destruct (sess_get c (hs s0) na) as [h1 cur]. cbn [fst snd] in *. subst cur.
+  pose proof (Quiet_send_pending_requests c (with_hs s0 (sess_insert c h1 na se)) na now) as [[_ [D2 _]] _].
+  destruct (D2 _ _ Hin) as [x [Hx1 Hx2]]. eapply sess_desc_trans; [| exact Hx2].
+  cbn [hs with_hs sess_insert sessions set_sessions] in Hx1.
+  assert (Hx1' : In (na, x) (alist_remove na (sessions h1) ++ [(na, touch se (cfg_clock c))])).
+  { destruct (Nat.ltb _ _); [apply tl_In |]; exact Hx1. }
+  apply in_app_or in Hx1'. destruct Hx1' as [Hx1' | [Hx1' | []]].
+  - exfalso. apply In_alist_remove in Hx1'. exact (Hgone _ Hx1').
+  - inversion Hx1'; subst x. apply touch_desc.
 Qed.
 
 (* ------------------------------------------------------------------------------------------ *)
 (* counter_monotone *)
 
+(* [installed_by c s0 e na se]: the event [e], handled in the state [s0] left by the implicit tick,
+   installs the session [se] (counter 0, no previous keys, keys derived in this handshake) under [na]:
+   exactly the description of step_sessions *)
+Definition installed_by (c : config) (s0 : st) (e : event) (na : naddr) (se : session) : Prop :=
+  s_counter se = 0 /\ s_old se = None /\
+  exists eph cd,
+    (s_dec se = mk_key eph (cfg_local c) cd (fst na) (cfg_local c) false /\
+     s_enc se = mk_key eph (cfg_local c) cd (fst na) (cfg_local c) true /\
+     exists from src n aad sg ok rec ct ch,
+       e = EvInbound from (PHs src n aad sg eph ok rec ct) /\ na = (src, from) /\
+       chall_get na (challenges (hs s0)) = Some ch /\ cd = ch_cd ch /\
+       exists e0, establish c src ch sg eph ok rec = EstOk se e0)
+    \/
+    (s_enc se = mk_key eph (fst na) cd (cfg_local c) (fst na) false /\
+     s_dec se = mk_key eph (fst na) cd (cfg_local c) (fst na) true /\
+     exists from n idn seq, e = EvInbound from (PWho n idn seq cd)).
+
 (* In one step: every session of the new state descends from the session stored under the same node
-   address before (counter not smaller), unless there was none. *)
+   address before (counter not smaller), or it is a session object that this step's handshake has
+   just created (there was none before, or the one before had expired and was purged): it holds
+   nothing but the keys just derived. *)
 Theorem counter_monotone_step c h e now d na se' :
   In (na, se') (sessions (fst (step c h e now d))) ->
   (exists se, In (na, se) (sessions h) /\ s_counter se <= s_counter se') \/
-  (forall se, ~ In (na, se) (sessions h)).
+  (exists se0, installed_by c (tick c h now d) e na se0 /\ sess_desc se0 se').
 Proof.
-  intros Hin. destruct (step_sessions c h e now d) as [D | [na0 [se0 [HN _]]]].
+  intros Hin. destruct (step_sessions c h e now d) as [D | [na0 [se0 [HN Hdesc]]]].
   - left. destruct (D _ _ Hin) as [se [H1 [_ H2]]]. eauto.
-  - destruct (HN _ _ Hin) as [[se [H1 [H2 _]]] | [E [H1 _]]].
+  - destruct (HN _ _ Hin) as [[se [H1 [H2 _]]] | [E H1]].
     + left. eauto.
-    + right. subst. exact H1.
+    + right. subst. exists se0. split; [exact Hdesc | exact H1].
 Qed.
 
 (* the same with lookups, in states with at most one session per address (every reachable state,
@@ -123,12 +178,13 @@ Theorem counter_monotone c h e now d na se se' :
   SessUniq h ->
   alist_get na (sessions h) = Some se ->
   alist_get na (sessions (fst (step c h e now d))) = Some se' ->
-  s_counter se <= s_counter se'.
+  s_counter se <= s_counter se' \/
+  (exists se0, installed_by c (tick c h now d) e na se0 /\ sess_desc se0 se').
 Proof.
   intros HU Hg Hg'. apply alist_get_In in Hg'.
   destruct (counter_monotone_step c h e now d na se' Hg') as [[se0 [H1 H2]] | H1].
-  - rewrite (alist_In_uniq _ _ _ HU H1) in Hg. inversion Hg; subst. exact H2.
-  - exfalso. apply alist_get_In in Hg. exact (H1 _ Hg).
+  - left. rewrite (alist_In_uniq _ _ _ HU H1) in Hg. inversion Hg; subst. exact H2.
+  - right. exact H1.
 Qed.
 
 (* along a run, while the entry persists *)
@@ -136,6 +192,14 @@ Fixpoint run_states (c : config) (h : hstate) (evs : list (event * N * draws)) :
   match evs with
   | [] => []
   | (e, now, d) :: rest => let h1 := fst (step c h e now d) in h1 :: run_states c h1 rest
+  end.
+
+(* some step of the run installs a session under [na] *)
+Fixpoint run_installs (c : config) (h : hstate) (evs : list (event * N * draws)) (na : naddr) : Prop :=
+  match evs with
+  | [] => False
+  | (e, now, d) :: rest =>
+    (exists se0, installed_by c (tick c h now d) e na se0) \/ run_installs c (fst (step c h e now d)) rest na
   end.
 
 Lemma run_fst_cons c h e now d rest :
@@ -147,18 +211,20 @@ Qed.
 Theorem counter_monotone_run c evs : forall h na se se',
   SessUniq h ->
   (forall hi, In hi (run_states c h evs) -> alist_get na (sessions hi) <> None) ->
+  ~ run_installs c h evs na ->
   alist_get na (sessions h) = Some se ->
   alist_get na (sessions (fst (run c h evs))) = Some se' ->
   s_counter se <= s_counter se'.
 Proof.
-  induction evs as [| [[e now] d] rest IH]; intros h na se se' HU Hall Hg Hg'.
+  induction evs as [| [[e now] d] rest IH]; intros h na se se' HU Hall Hni Hg Hg'.
   - cbn [run fst] in Hg'. rewrite Hg in Hg'. inversion Hg'; subst. lia.
-  - rewrite run_fst_cons in Hg'. cbn [run_states] in Hall.
+  - rewrite run_fst_cons in Hg'. cbn [run_states] in Hall. cbn [run_installs] in Hni.
     destruct (alist_get na (sessions (fst (step c h e now d)))) as [se1 |] eqn:E1.
-    + pose proof (counter_monotone c h e now d na se se1 HU Hg E1) as H1.
-      pose proof (IH (fst (step c h e now d)) na se1 se' (step_SessUniq c h e now d HU)
-                    (fun hi Hi => Hall hi (or_intror Hi)) E1 Hg') as H2.
-      lia.
+    + destruct (counter_monotone c h e now d na se se1 HU Hg E1) as [H1 | [se0 [H1 _]]].
+      * pose proof (IH (fst (step c h e now d)) na se1 se' (step_SessUniq c h e now d HU)
+                      (fun hi Hi => Hall hi (or_intror Hi)) (fun X => Hni (or_intror X)) E1 Hg') as H2.
+        lia.
+      * exfalso. apply Hni. left. exists se0. exact H1.
     + exfalso. apply (Hall _ (or_introl eq_refl)). exact E1.
 Qed.
 
